@@ -94,3 +94,89 @@ class LinInterp:
                 wz = z3.RealVal(str(w))
                 out[k] = self.y[i] + (self.y[i + 1] - self.y[i]) * S(wz) if w != 0 else self.y[i]
         return out
+
+
+# ------------------------------------------------------------------ exact IEEE-754 cells (binary64)
+F64 = z3.Float64()
+RNE = z3.RNE()
+
+
+def FV(x):
+    if isinstance(x, F): return x.t
+    if z3.is_expr(x): return x
+    return z3.FPVal(float(x), F64)
+
+
+class B:
+    """symbolic boolean cell"""
+    __slots__ = ('t',)
+    def __init__(self, t): self.t = t
+    def __and__(self, o): return B(z3.And(self.t, o.t if isinstance(o, B) else z3.BoolVal(bool(o))))
+    def __or__(self, o): return B(z3.Or(self.t, o.t if isinstance(o, B) else z3.BoolVal(bool(o))))
+    def __invert__(self): return B(z3.Not(self.t))
+    def __bool__(self): raise TypeError('truth value of a symbolic boolean')
+
+
+class F:
+    """IEEE binary64 cell: every operation is the correctly rounded (RNE) z3 floating-point operation"""
+    __slots__ = ('t',)
+    def __init__(self, t): self.t = t
+    def _b(self, o, f):
+        if isinstance(o, np.ndarray): return NotImplemented
+        return F(f(self.t, FV(o)))
+    def __add__(self, o): return self._b(o, lambda a, b: z3.fpAdd(RNE, a, b))
+    def __radd__(self, o): return self._b(o, lambda a, b: z3.fpAdd(RNE, b, a))
+    def __sub__(self, o): return self._b(o, lambda a, b: z3.fpSub(RNE, a, b))
+    def __rsub__(self, o): return self._b(o, lambda a, b: z3.fpSub(RNE, b, a))
+    def __mul__(self, o): return self._b(o, lambda a, b: z3.fpMul(RNE, a, b))
+    def __rmul__(self, o): return self._b(o, lambda a, b: z3.fpMul(RNE, b, a))
+    def __truediv__(self, o): return self._b(o, lambda a, b: z3.fpDiv(RNE, a, b))
+    def __rtruediv__(self, o): return self._b(o, lambda a, b: z3.fpDiv(RNE, b, a))
+    def __neg__(self): return F(z3.fpNeg(self.t))
+    def __abs__(self): return F(z3.fpAbs(self.t))
+    def __gt__(self, o): return B(z3.fpGT(self.t, FV(o)))
+    def __lt__(self, o): return B(z3.fpLT(self.t, FV(o)))
+    def __ge__(self, o): return B(z3.fpGEQ(self.t, FV(o)))
+    def __le__(self, o): return B(z3.fpLEQ(self.t, FV(o)))
+    def __float__(self): raise TypeError('symbolic cell used where a concrete float is required')
+    def __repr__(self): return 'F(%s)' % self.t
+
+
+def _elem(f, *arrs):
+    arrs = np.broadcast_arrays(*[np.asarray(a, dtype=object) for a in arrs])
+    out = np.empty(arrs[0].shape, dtype=object)
+    for idx in np.ndindex(*arrs[0].shape): out[idx] = f(*[a[idx] for a in arrs])
+    return out
+
+
+class NpFP(NpShim):
+    """numpy facade for FP cells: the data-dependent primitives become ite terms"""
+    def _lift(self, v): return v if isinstance(v, F) else F(FV(v))
+    def ones(self, shape, dtype=None, **kw):
+        a = np.empty(shape, dtype=object); a.fill(F(z3.FPVal(1.0, F64))); return a
+    def zeros(self, shape, dtype=None, **kw):
+        a = np.empty(shape, dtype=object); a.fill(F(z3.FPVal(0.0, F64))); return a
+    def where(self, c, a, b):
+        return _elem(lambda cc, x, y: F(z3.If(cc.t if isinstance(cc, B) else z3.BoolVal(bool(cc)), FV(x), FV(y))), c, a, b)
+    def maximum(self, a, b):
+        # numpy.maximum propagates NaN; inputs are assumed non-NaN by the harness preconditions
+        return _elem(lambda x, y: F(z3.If(z3.fpGEQ(FV(x), FV(y)), FV(x), FV(y))), a, b)
+    def minimum(self, a, b):
+        return _elem(lambda x, y: F(z3.If(z3.fpLEQ(FV(x), FV(y)), FV(x), FV(y))), a, b)
+    def abs(self, a): return _elem(lambda x: abs(self._lift(x)), a)
+    def clip(self, a, lo, hi, out=None):
+        r = self.minimum(self.maximum(a, lo), hi)
+        if out is not None: out[...] = r; return out
+        return r
+
+
+class OA(np.ndarray):
+    """object ndarray whose comparisons stay symbolic (numpy would otherwise coerce each result to bool)"""
+    def __new__(cls, a):
+        return np.asarray(a, dtype=object).view(cls)
+    def _cmp(self, o, f):
+        return _elem(f, np.asarray(self, dtype=object), o).view(OA)
+    def __gt__(self, o): return self._cmp(o, lambda a, b: a > b if isinstance(a, F) else F(FV(a)) > b)
+    def __lt__(self, o): return self._cmp(o, lambda a, b: a < b if isinstance(a, F) else F(FV(a)) < b)
+    def __ge__(self, o): return self._cmp(o, lambda a, b: a >= b if isinstance(a, F) else F(FV(a)) >= b)
+    def __le__(self, o): return self._cmp(o, lambda a, b: a <= b if isinstance(a, F) else F(FV(a)) <= b)
